@@ -12,6 +12,7 @@
 """
 import fractions
 import json
+import re
 import math
 
 import numpy as np
@@ -158,10 +159,10 @@ def gen_sessions(rng, infra, now, period, distinct_keys=False, user_bounds=True,
             rem = per_amp * rng.uniform(0.05, 1.0) * mp
         elif t < 0.8:                                    # nearly finished: around the minimum pilot / threshold
             base = mn if mn > 0 else rng.choice([1.0, 6.0])
-            rem = per_amp * base * (1 + rng.choice([-1, 1]) * rng.choice([1e-6, 1e-3, 0.05, 0.3]))
+            rem = per_amp * base * (1 + rng.choice([-1, 1]) * rng.choice([0.0, 1e-6, 1e-3, 0.05, 0.3]))
         elif t < 0.88:                                   # around a level of the station
             lv = rng.choice(infra["allow"][st])
-            rem = per_amp * lv * (1 + rng.choice([-1, 1]) * rng.choice([1e-6, 1e-4, 0.01]))
+            rem = per_amp * lv * (1 + rng.choice([-1, 1]) * rng.choice([0.0, 1e-6, 1e-4, 0.01]))
         elif t < 0.94:
             rem = rng.choice([0.0, -0.5, 1e-6])          # finished / over-delivered
         else:
@@ -195,7 +196,7 @@ def gen_ramp(rng, infra, sess):
     if rng.random() < 0.6:
         thr = (1.0, 1.0, 1.0)
     else:
-        thr = (float(rng.choice([1, 0.5, 2])), float(rng.choice([1, 0.5, 3])), float(rng.choice([1, 2, 0.25])))
+        thr = (float(rng.choice([1, 0.5, 2, 0])), float(rng.choice([1, 0.5, 3, 0])), float(rng.choice([1, 2, 0.25, 0])))
     store, pp, pr = {}, {}, {}
     for s in sess:
         mp = infra["maxp"][s["st"]]
@@ -224,7 +225,7 @@ def gen_ramp(rng, infra, sess):
 def gen_scenario(rng, tier, algo=None, sort=None, est=None, unint=None, inc=None, distinct_keys=False,
                  user_bounds=True, plenty=0.45):
     infra = gen_infra(rng, tier)
-    period = float(rng.choice([1, 5, 5, 15]))
+    period = float(rng.choice([1, 5, 5, 15, 5, 7, 2.5, 0.5, 12, 60]))       # incl. periods that do not divide 60, fractional
     now = rng.randint(0, 60)
     sess = gen_sessions(rng, infra, now, period, distinct_keys=distinct_keys, user_bounds=user_bounds, plenty=plenty)
     # place most limits where they bind for the sessions that are actually present
@@ -247,7 +248,14 @@ def gen_scenario(rng, tier, algo=None, sort=None, est=None, unint=None, inc=None
                sort=sort or rng.choice(SORTS),
                est=gen_ramp(rng, infra, sess) if est_on else None,
                unint=(rng.random() < 0.5) if unint is None else unint,
-               inc=inc if inc is not None else rng.choice([0.1, 0.5, 1.0]))
+               inc=inc if inc is not None else rng.choice([0.1, 0.5, 1.0, 3.0, 5.0, 7.0, 0.3, 2.5]))
+    # identifiers whose sorted order differs from registration order / falsy / numeric-looking; value types
+    if rng.random() < 0.4:
+        infra["names"] = make_names(rng.choice(NAME_STYLES), infra["N"])
+    if rng.random() < 0.4:
+        scn["sid_style"] = rng.choice(SID_STYLES)
+    if rng.random() < 0.35:
+        scn["dtype"] = rng.choice(["int", "np"])
     return scn
 
 
@@ -258,39 +266,102 @@ def station_name(i):
     return "ST-%d" % i
 
 
-def session_name(sid):
-    return "sess%d" % sid
+NAME_STYLES = ["default", "default", "default", "offset", "case", "numeric", "falsy"]
+
+
+def make_names(style, N, rng=None):
+    """station ids whose lexicographic order differs from the registration order, mixed case, numeric-looking, falsy"""
+    if style == "offset":
+        return ["S-%d" % (9 + i) for i in range(N)]                 # S-9, S-10, S-11: sorted() != registration order
+    if style == "case":
+        base = ["b", "A", "c", "B", "a", "C", "Zz", "zZ", "d", "D", "e", "E"]
+        return base[:N]
+    if style == "numeric":
+        base = ["10", "9", "08", "7", "100", "1e1", "6.0", "-5", "04", "3", "20", "2"]
+        return base[:N]
+    if style == "falsy":
+        base = ["", "0", "00", " ", "None", "False", "0.0", "nan", "[]", "{}", "-0", "+0"]
+        return base[:N]
+    return [station_name(i) for i in range(N)]
+
+
+def snames(infra):
+    return infra.get("names") or [station_name(i) for i in range(infra["N"])]
+
+
+SID_STYLES = ["sess%d", "sess%d", "%d", "EV-%03d", "%d.0x"]
+
+
+def session_name(sid, style="sess%d"):
+    return style % sid
+
+
+def sstyle(scn):
+    return scn.get("sid_style") or "sess%d"
+
+
+def _as_dtype(x, kind):
+    """the same VALUE handed over as another type (int when integral, numpy scalar)"""
+    if not isinstance(x, float) or x != x or abs(x) == INF:
+        return x
+    if kind == "int" and abs(x) < 1e9 and x == int(x):
+        return int(x)
+    if kind == "np":
+        if abs(x) < 1e9 and x == int(x):
+            return np.int64(int(x))
+        if isinstance(x, float) and x != INF:
+            return np.float64(x)
+    return x
 
 
 def iface_data(scn):
     infra = scn["infra"]
+    names = snames(infra)
+    st = sstyle(scn)
+    kind = scn.get("dtype") or "float"
+    cv = (lambda x: _as_dtype(float(x), kind)) if kind != "float" else float
+
+    def rates(v):
+        if isinstance(v, list):
+            out = [_as_dtype(float(x), kind) for x in v]
+            return np.array(out) if kind == "np" else out
+        return _as_dtype(v, kind) if isinstance(v, float) else v
     sessions = []
     for s in scn["sessions"]:
-        sessions.append(dict(station_id=station_name(s["st"]), session_id=session_name(s["sid"]),
-                             requested_energy=s["req"], energy_delivered=s["deliv"], arrival=s["arr"],
+        sessions.append(dict(station_id=names[s["st"]], session_id=session_name(s["sid"], st),
+                             requested_energy=cv(s["req"]), energy_delivered=s["deliv"], arrival=s["arr"],
                              departure=s["dep"], estimated_departure=s["edep"],
-                             min_rates=s["mins"], max_rates=s["maxs"]))
+                             min_rates=rates(s["mins"]), max_rates=rates(s["maxs"])))
+    A = np.array(infra["A"], dtype=float).reshape(len(infra["L"]), infra["N"])
+    L = np.array(infra["L"], dtype=float)
+    if kind != "float":
+        if np.all(A == np.round(A)):
+            A = A.astype(int)
+        if np.all(L == np.round(L)):
+            L = L.astype(int)
     data = dict(active_sessions=sessions,
                 infrastructure_info=dict(
-                    constraint_matrix=np.array(infra["A"], dtype=float).reshape(len(infra["L"]), infra["N"]),
-                    constraint_limits=np.array(infra["L"], dtype=float),
-                    phases=np.array(infra["phases"], dtype=float),
-                    voltages=[float(v) for v in infra["volt"]],
+                    constraint_matrix=A,
+                    constraint_limits=L,
+                    phases=np.array(infra["phases"], dtype=float) if kind == "float" else [cv(x) for x in infra["phases"]],
+                    voltages=[cv(v) for v in infra["volt"]],
                     constraint_ids=["c%d" % j for j in range(len(infra["L"]))],
-                    station_ids=[station_name(i) for i in range(infra["N"])],
-                    max_pilot=[float(x) for x in infra["maxp"]],
-                    min_pilot=[float(x) for x in infra["minp"]],
-                    allowable_pilots=[[float(x) for x in a] for a in infra["allow"]],
+                    station_ids=list(names),
+                    max_pilot=[cv(x) for x in infra["maxp"]],
+                    min_pilot=[cv(x) for x in infra["minp"]],
+                    allowable_pilots=[[cv(x) for x in a] for a in infra["allow"]],
                     is_continuous=[bool(b) for b in infra["cont"]]),
-                current_time=scn["now"], period=scn["period"])
+                current_time=scn["now"], period=cv(scn["period"]))
     if scn["est"] is not None:
-        data["last_applied_pilot_signals"] = {session_name(k): v for k, v in scn["est"]["prev_pilot"].items()}
-        data["last_actual_charging_rate"] = {session_name(k): v for k, v in scn["est"]["prev_rate"].items()}
+        data["last_applied_pilot_signals"] = {session_name(k, st): cv(v) for k, v in scn["est"]["prev_pilot"].items()}
+        data["last_actual_charging_rate"] = {session_name(k, st): cv(v) for k, v in scn["est"]["prev_rate"].items()}
     return data
 
 
 def sid_of(name):
-    return int(name[4:])
+    """session number from any of the id styles (the digits before an optional '.0x' suffix)"""
+    m = re.search(r"(\d+)(?:\.0x)?$", str(name))
+    return int(m.group(1))
 
 
 def make_algo(scn):
@@ -299,7 +370,7 @@ def make_algo(scn):
     if scn["est"] is not None:
         e = scn["est"]
         est = alg.SimpleRampdown(up_threshold=e["up_thr"], down_threshold=e["down_thr"], up_increment=e["up_inc"])
-        est.upper_bounds = {session_name(k): v for k, v in e["store"].items()}
+        est.upper_bounds = {session_name(k, sstyle(scn)): v for k, v in e["store"].items()}
     kw = dict(estimate_max_rate=est is not None, max_rate_estimator=est, uninterrupted_charging=scn["unint"])
     if scn["algo"] == "rr":
         a = alg.RoundRobin(sort_fn(scn["sort"]), continuous_inc=scn["inc"], **kw)
@@ -375,24 +446,27 @@ class Observed:
                 return r
             sa_mod.infrastructure_constraints_feasible = feas
 
-    def end(self, raw, err, N):
+    def end(self, raw, err, names):
         if self.kind == "rr":
             self._sa_mod.infrastructure_constraints_feasible = self._orig_feas
         rec = self.rec
+        N = len(names)
+        index = {n: k for k, n in enumerate(names)}
         shape_ok, sched = True, None
         if raw is not None:
             if self.kind == "unc":
                 sched = [None] * N
                 for k_, v in raw.items():
-                    if not (isinstance(v, list) and len(v) == 1):
+                    if not (isinstance(v, list) and len(v) == 1) or k_ not in index:
                         shape_ok = False
-                    sched[int(k_[3:])] = float(v[0])
+                        continue
+                    sched[index[k_]] = float(v[0])
             else:
                 sched = []
-                if sorted(raw.keys()) != sorted(station_name(i) for i in range(N)):
+                if len(raw) != N or any(k_ not in index for k_ in raw):
                     shape_ok = False
                 for i in range(N):
-                    v = raw.get(station_name(i), [float("nan")])
+                    v = raw.get(names[i], [float("nan")])
                     if not (isinstance(v, list) and len(v) == 1):
                         shape_ok = False
                     sched.append(float(v[0]))
@@ -412,10 +486,23 @@ class Observed:
                     rr_trace=rec.get("trace"))
 
 
+def _freeze(o):
+    """structural snapshot of interface data (numpy arrays -> nested tuples, with dtype) to detect mutation by the callee"""
+    if isinstance(o, np.ndarray):
+        return ("nd", str(o.dtype), tuple(o.ravel().tolist()), o.shape)
+    if isinstance(o, dict):
+        return ("d", tuple((repr(k), _freeze(v)) for k, v in o.items()))
+    if isinstance(o, (list, tuple)):
+        return ("l", tuple(_freeze(v) for v in o))
+    return repr(o)
+
+
 class StubDriver:
     """ONE real algorithm object driven through consecutive run() calls via the repo's TestingInterface.  Between calls
     only the interface's data changes (the algorithm is neither re-created nor re-registered) unless
-    `reregister=True` (the same object moved to another network)."""
+    `reregister=True` (the same object moved to another network).  Around every call: the caller-owned interface data
+    must be left untouched by the call; the returned dictionary is kept (and optionally vandalised by the caller) so that
+    later calls can be checked not to alias or depend on it."""
 
     def __init__(self, scn):
         from acnportal.algorithms.tests.testing_interface import TestingInterface
@@ -424,8 +511,9 @@ class StubDriver:
         self.algo.register_interface(self.iface)
         self.obs = Observed(self.algo, self.est, scn["algo"])
         self.calls = 0
+        self.held = []          # (raw dict as returned, float copy taken immediately)
 
-    def call(self, scn, reregister=False):
+    def call(self, scn, reregister=False, direct=False, vandalise=False):
         from acnportal.algorithms.tests.testing_interface import TestingInterface
         if self.calls > 0:
             if scn.get("est") is not None and self.est is not None:
@@ -437,13 +525,26 @@ class StubDriver:
             else:
                 self.iface.data = iface_data(scn)
         self.calls += 1
+        before = _freeze(self.iface.data)
         self.obs.begin()
         raw, err = None, None
         try:
-            raw = self.algo.run()
+            # two public entry points: run(), or schedule() on sessions fetched by the caller
+            raw = self.algo.schedule(self.iface.active_sessions()) if direct else self.algo.run()
         except Exception as e:  # noqa
             err = type(e).__name__
-        return self.obs.end(raw, err, scn["infra"]["N"])
+        out = self.obs.end(raw, err, snames(scn["infra"]))
+        out["data_mutated"] = _freeze(self.iface.data) != before
+        # results handed out earlier must still read the same (no aliasing with internal / later state)
+        out["held_changed"] = any(
+            {k: [float(x) for x in v] for k, v in r.items()} != c for r, c in self.held)
+        if raw is not None:
+            self.held.append((raw, {k: [float(x) for x in v] for k, v in raw.items()}))
+            if vandalise:            # the caller scribbles over what it was given; the component must not care
+                for k in list(raw.keys()):
+                    raw[k][:] = [-777.0]
+                self.held[-1] = (raw, {k: [-777.0] for k in raw})
+        return out
 
 
 def run_impl(scn):
@@ -1129,9 +1230,23 @@ def run_sequence(rng, tier, steps=6, algo=None, sort=None):
         if t > 0 and t == switch_at:
             scn["infra"] = other_network(rng, scn["infra"])
             rereg = True
+        elif t > 0 and rng.random() < 0.25 and scn["infra"]["L"]:
+            # the network is modified between two calls on the same objects (update / remove / add a constraint)
+            inf = scn["infra"] = _copy.deepcopy(scn["infra"])
+            op = rng.choice(["update", "update", "remove", "add"])
+            j = rng.randrange(len(inf["L"]))
+            if op == "update":
+                inf["L"][j] = float(round(inf["L"][j] * rng.uniform(0.5, 1.5), 2))
+            elif op == "remove":
+                del inf["L"][j]
+                del inf["A"][j]
+            else:
+                inf["A"].append([float(rng.choice([0.0, 1.0, 1.0, -1.0, 0.5])) for _ in range(inf["N"])])
+                inf["L"].append(float(rng.choice([16, 24, 40, 12.5])))
         scn = _copy.deepcopy(scn)
         scn.pop("history", None)
-        impl = driver.call(scn, reregister=rereg)
+        mode = dict(direct=rng.random() < 0.3, vandalise=rng.random() < 0.3)
+        impl = driver.call(scn, reregister=rereg, **mode)
         rec = _copy.deepcopy(scn)
         # what the same object was asked before (needed to replay a state-dependent failure)
         scn["history"] = list(hist)
@@ -1152,7 +1267,7 @@ def replay_with_history(scn):
         return scn, run_impl(scn)
     driver = StubDriver(hist[0]["scn"])
     for h in hist:
-        driver.call(h["scn"], reregister=h["rereg"])
+        driver.call(h["scn"], reregister=h["rereg"], vandalise=True)
     return scn, driver.call(scn, reregister=bool(scn.get("rereg")))
 
 
@@ -1169,4 +1284,34 @@ def run_unc_pair(rng, tier):
     b["history"] = [dict(scn=_copy.deepcopy(a), rereg=False)]
     b["rereg"] = rereg
     out.append((b, implb, "unc-second"))
+    return out
+
+
+def run_interleaved(rng, tier, rounds=3):
+    """TWO live instances (algorithm + interface + estimator each) on networks of the same shape and station ids but
+    different values, called alternately over consecutive periods; earlier results are held and re-read"""
+    a = gen_flip_scenario(rng, tier) if rng.random() < 0.5 else gen_scenario(rng, tier, user_bounds=False, plenty=0.8)
+    if a["inc"] == 0.1:
+        a["inc"] = 0.5
+    if rng.random() < 0.5:
+        a["est"] = gen_ramp(rng, a["infra"], a["sessions"])
+    b = _copy.deepcopy(a)
+    b["infra"] = other_network(rng, a["infra"])
+    b["infra"]["names"] = a["infra"].get("names")
+    for s_ in b["sessions"]:
+        s_["deliv"] = float(s_["deliv"] + rng.uniform(0, 0.3) * max(0.0, s_["req"] - s_["deliv"]))
+    b["sort"] = rng.choice(SORTS)
+    da, db = StubDriver(a), StubDriver(b)
+    out = []
+    for t in range(rounds):
+        for tag, drv in (("A", da), ("B", db)):
+            scn = _copy.deepcopy(a if tag == "A" else b)
+            scn.pop("history", None)
+            impl = drv.call(scn, vandalise=rng.random() < 0.3)
+            out.append((scn, impl, "ilv%s%d" % (tag, t)))
+            nxt = advance(scn, impl, rng) if impl["err"] is None else scn
+            if tag == "A":
+                a = nxt
+            else:
+                b = nxt
     return out
